@@ -36,6 +36,14 @@ fn oversized(ty: &Ty, v: &Val, ver: u32, input_len: usize) -> Option<String> {
         (Ty::Res(t, _), Val::Ok(x)) => oversized(t, x, ver, input_len),
         (Ty::Res(_, t), Val::Err(x)) => oversized(t, x, ver, input_len),
         (Ty::Wrap(_, t), x) => oversized(t, x, ver, input_len),
+        // opaque library types (bit vectors / bit sets): the model does not define their bytes;
+        // one element is one bit of the input at best
+        (Ty::Lib(l), Val::Seq(items)) if l.opaque => {
+            if items.len() > input_len.saturating_mul(8) {
+                return Some(format!("{} of {} elements from {} input bytes", l.key, items.len(), input_len));
+            }
+            None
+        }
         (Ty::Lib(l), x) => oversized(&l.wire, x, ver, input_len),
         (Ty::Array(t, _), Val::Seq(items)) => items.iter().find_map(|x| oversized(t, x, ver, input_len)),
         (Ty::Tuple(ts), Val::Tuple(items)) => ts.iter().zip(items).find_map(|(t, x)| oversized(t, x, ver, input_len)),
@@ -194,9 +202,21 @@ fn declares_absurd_length(m: &[u8], marks: &[vmodel::wire::Mark], payload_at: us
 /// all mutations of one valid encoding
 pub fn mutate_encoding(t: &Target, vals: &[Val], thorough: bool, out: &mut Vec<Finding>, st: &mut Stats, d: &mut Driver) {
     let cval = ctx_val(t.ctx, vals);
-    let Ok(enc) = encode(&t.ty, &cval, t.ver) else { return };
     let mut bytes = vec![];
-    if t.e.ops.save(t.c, t.ver, t.ctx, vals, &mut bytes).is_err() || bytes.len() < enc.bytes.len() {
+    let mut opaque = false;
+    let enc = match encode(&t.ty, &cval, t.ver) {
+        Ok(e) => e,
+        Err(vmodel::wire::WireErr::Opaque) => {
+            // no model of the bytes: mutate the implementation's own encoding, no field map
+            if t.e.ops.save(t.c, t.ver, t.ctx, vals, &mut bytes).is_err() {
+                return;
+            }
+            opaque = true;
+            vmodel::wire::Enc { bytes: if t.c == Container::Bare { bytes.clone() } else { vec![] }, marks: vec![] }
+        }
+        Err(_) => return,
+    };
+    if bytes.is_empty() && (t.e.ops.save(t.c, t.ver, t.ctx, vals, &mut bytes).is_err() || bytes.len() < enc.bytes.len()) {
         return;
     }
     st.add("C06.encodings", 1);
@@ -213,6 +233,11 @@ pub fn mutate_encoding(t: &Target, vals: &[Val], thorough: bool, out: &mut Vec<F
         .filter(|m| matches!(m.kind, MarkKind::StrLen | MarkKind::SeqLen))
         .flat_map(|m| (payload_at + m.pos + 2)..(payload_at + m.pos + 8))
         .collect();
+    // opaque (bit vector) encodings: recognise the pair (bit count, byte count | 1<<63) by its
+    // shape; only used to choose mutations (a wrong guess changes which inputs are tried, not
+    // how an input is judged)
+    let opaque_lens: Vec<usize> = if opaque { (8..bytes.len().saturating_sub(7)).filter(|p| bytes[p + 7] == 0x80 && bytes[p + 2..p + 7].iter().all(|b| *b == 0) && bytes[p - 6..*p].iter().all(|b| *b == 0)).collect() } else { vec![] };
+    let len_high: Vec<usize> = len_high.into_iter().chain(opaque_lens.iter().flat_map(|p| (p - 6..*p).chain(p + 2..p + 7))).collect();
     for pos in region {
         if !thorough && len_high.contains(&pos) {
             st.add("C06.len_high_bytes_left_to_length_mutations", 1);
@@ -223,6 +248,24 @@ pub fn mutate_encoding(t: &Target, vals: &[Val], thorough: bool, out: &mut Vec<F
             m[pos] = b;
             let absurd = declares_absurd_length(&m, &enc.marks, payload_at);
             judge(t, &m, &format!("byte {}:={:#04x}", pos, b), absurd, out, st, d);
+        }
+    }
+    for p in &opaque_lens {
+        let bits = u64::from_le_bytes(bytes[p - 8..*p].try_into().unwrap());
+        let nbytes = u64::from_le_bytes(bytes[*p..p + 8].try_into().unwrap()) & !(1 << 63);
+        for n in boundary_lengths(bits, 1) {
+            let mut m = bytes.clone();
+            m[p - 8..*p].copy_from_slice(&n.to_le_bytes());
+            judge(t, &m, &format!("bits @{} {}->{}", p - 8, bits, n), n > (1 << 40), out, st, d);
+        }
+        for n in boundary_lengths(nbytes, 8).into_iter().chain([nbytes + 4, nbytes.wrapping_sub(4), 4, 8, 1 << 20, (1 << 20) + 4, 1 << 60]) {
+            for flag in [1u64 << 63, 0] {
+                let mut m = bytes.clone();
+                m[*p..p + 8].copy_from_slice(&(n | flag).to_le_bytes());
+                if m != bytes {
+                    judge(t, &m, &format!("bytes @{} {}->{}|{:#x}", p, nbytes, n, flag), n > (1 << 40), out, st, d);
+                }
+            }
         }
     }
     // (b) length fields x boundary lengths, (c) tags / discriminants x values
@@ -290,7 +333,7 @@ pub fn items(entries: &[Entry], thorough: bool) -> usize {
 }
 
 pub fn run_item(entries: &[Entry], thorough: bool, pos: usize, d: &mut Driver, st: &mut Stats) -> Value {
-    vcommon::child::limit_memory(6 << 30);
+    vcommon::child::limit_memory(1 << 30);
     let list = mal_entries(entries, thorough);
     let e = list[pos];
     let ver = e.ty.max_version();
@@ -325,4 +368,27 @@ pub fn run_item(entries: &[Entry], thorough: bool, pos: usize, d: &mut Driver, s
         st.add("C06.short_string_types", 1);
     }
     json!({"type": e.ty.describe(), "values": picks.iter().map(to_json).collect::<Vec<_>>(), "apis": ["bare_deserialize", "load_noschema", "load"]})
+}
+
+/// re-execute exactly one recorded malformed input
+pub fn replay_case(entries: &[Entry], case: &Value, out: &mut Vec<Finding>, st: &mut Stats) {
+    let e = entries.iter().find(|e| e.ty.rust() == case["rust_type"].as_str().unwrap_or("")).unwrap_or_else(|| vcommon::machinery_error("replay: type not found"));
+    let c = [Container::Bare, Container::NoSchema, Container::Plain].into_iter().find(|c| format!("{:?}", c) == case["container"].as_str().unwrap_or("")).unwrap_or(Container::Bare);
+    let ctx = vglue::ops::BULK_CTXS.iter().copied().find(|x| format!("{:?}", x) == case["context"].as_str().unwrap_or("")).unwrap_or(Ctx::Single);
+    let ver = case["version"].as_u64().unwrap_or(0) as u32;
+    let t = Target::new(e, ver, c, ctx, ctx_ty(ctx, &e.ty));
+    let input = vcommon::unhex(case["input"].as_str().unwrap_or(""));
+    vcommon::child::limit_memory(1 << 30);
+    let mut emit = |_f: Finding| {};
+    let mut d = Driver { pos: 0, skip_through: 0, sno: 0, emit: &mut emit };
+    let mut sink = vec![];
+    // judge() drains `out` into the driver's emitter; collect through a local emitter instead
+    let mut collected: Vec<Finding> = vec![];
+    {
+        let mut emit2 = |f: Finding| collected.push(f);
+        let mut d2 = Driver { pos: 0, skip_through: 0, sno: 0, emit: &mut emit2 };
+        judge(&t, &input, case["mutation"].as_str().unwrap_or("replay"), case["absurd_length"].as_bool().unwrap_or(false), &mut sink, st, &mut d2);
+    }
+    let _ = &mut d;
+    out.extend(collected);
 }
